@@ -100,7 +100,24 @@ def generate(rng, tier: str, index: int) -> dict:
             # a session that negotiated 65535-byte messages is sent one: valid by construction, far above 4096
             items.insert(rng.randint(0, len(items)), {'gen': 'valid-unusual', 'style': 'max-size', 'seed': rng.randint(1, 1 << 40), 'size': 65000, 'slow': None})
         scripts.append({'state': state, 'items': items})
-    return {'micro_seed': rng.randint(1, 1 << 48), 'knobs': knobs(rng), 'kinds': kinds, 'scripts': scripts, 'gap': rng.choice([0.02, 0.1, 0.3]), 'split_p': rng.choice([0.0, 0.3])}
+    plan = {'micro_seed': rng.randint(1, 1 << 48), 'knobs': knobs(rng), 'kinds': kinds, 'scripts': scripts, 'gap': rng.choice([0.02, 0.1, 0.3]), 'split_p': rng.choice([0.0, 0.3])}
+    # ADD-PATH churn (a side stream: the plans generated so far keep their draws): valid announces and withdraws over two prefixes and
+    # three path identifiers - a withdraw for a path never announced, a withdraw repeated, the last path of a prefix going away - on
+    # a session with ADD-PATH receive, half of the time with a PATHS-LIMIT that makes exabgp count the paths it is sent
+    f = rng.fork('ap-churn')
+    for k, sc in zip(kinds, scripts):
+        if sc['state'] != 'established' or k.get('corpus_friendly'):
+            continue
+        if (1, 1) not in [tuple(x) for x in k['addpath']] and f.chance(0.12):
+            k['addpath'] = [list(x) for x in k['addpath']] + [[1, 1]]
+        if (1, 1) in [tuple(x) for x in k['addpath']] and f.chance(0.6):
+            if f.chance(0.6):
+                k['paths_limit'] = f.choice([1, 2, 5])
+            churn = [{'gen': 'valid-unusual', 'style': 'ap-churn', 'op': f.choice(['ann', 'ann', 'wd']), 'pfx': f.randint(0, 1), 'pid': f.randint(1, 3), 'seed': f.randint(1, 1 << 40), 'size': 0, 'slow': None, 'adv': False}
+                     for _ in range(f.randint(2, 8))]  # fmt: skip
+            at = f.randint(0, len(sc['items']))
+            sc['items'][at:at] = churn
+    return plan
 
 
 # --------------------------------------------------------------------------- hostile body builders
@@ -416,6 +433,11 @@ def build(item: dict, kind: dict) -> tuple[int, bytes, bool]:
     if g == 'valid-unusual':
         style = rng.choice(['many-unknown', 'max-size', 'empty-values', 'wd-only-max', 'long-path', 'long-path', 'attr-subset', 'attr-subset'])
         style = item.get('style') or style
+        if style == 'ap-churn':
+            nl = R.enc_prefix(['192.0.2.0/24', '198.51.100.128/25'][item['pfx']], pathid=item['pid'])
+            if item['op'] == 'ann':
+                return 2, R.build_update(attrs=base_attrs(kind), nlri=nl)[19:], True
+            return 2, R.build_update(withdrawn=nl)[19:], True
         if style == 'attr-subset':
             # a well-formed UPDATE holding any subset of well-formed optional attributes in any order: each is legal alone and in
             # every combination (RFC 6793 OLD-speaker leftovers included on a 2-byte session: AS4_PATH without AS4_AGGREGATOR, ...)
@@ -557,6 +579,7 @@ def execute(plan: dict) -> dict:
                 'peer_ip': k['peer_ip'], 'local_ip': LOCAL, 'local_as': 'auto' if k.get('local_auto') and k['asn4'] else 65001, 'peer_as': k['peer_as'], 'router_id': LOCAL, 'hold': 180, 'families': fams, 'adj-rib-in': True,
                 'caps': {'asn4': k['asn4'], 'add-path': 'receive' if ap else 'disable', 'extended-message': k['extmsg'], 'operational': True, 'aigp': True},
                 'addpath_families': ap or None, 'api': {'processes': ['h1'], 'receive': ['parsed', 'update', 'notification', 'open', 'refresh', 'operational']},
+                'addpath_limits': {FAM_TEXT[f]: k['paths_limit'] for f in ap} if k.get('paths_limit') else None,
             }
         )  # fmt: skip
         spec = {'asn': k['peer_as'], 'families': fams, 'asn4': k['asn4'], 'extmsg': k['extmsg']}
